@@ -341,7 +341,7 @@ def cmd_check(args):
         exe = os.path.join(BUILD, "bin", r["_part"])
         path = r.get("replay", "")
         rc, out = replay_fresh(pid, exe, path) if path else (2, "")
-        crashlike = r.get("oracle") in ("crash", "hang") or str(r.get("oracle")).startswith("crash:")
+        crashlike = r.get("oracle") in ("crash", "hang", "deadlock") or str(r.get("oracle")).startswith("crash:")
         if rc == 1 or (crashlike and rc not in (0, 2, 3)):
             reported.add(key)
             confirmed += 1
